@@ -5,6 +5,7 @@ import Driver.Pl
 import Driver.Cl
 import Driver.Cd
 import Driver.Dr
+import Driver.Sm
 /-! `driver <suite>`: reads a transcript on stdin, prints the model's `obs` line for every `op` line. -/
 
 partial def loopSrv (h : IO.FS.Stream) (out : IO.FS.Stream) (st : Driver.Srv.St) : IO Unit := do
@@ -69,6 +70,7 @@ def main (args : List String) : IO UInt32 := do
   | ["client"] => loopCl stdin stdout ({}, []); return 0
   | ["pool"] => loopPl stdin stdout {}; return 0
   | ["direct"] => loopDr stdin stdout {}; return 0
+  | ["s2m"] => loopStateless stdin stdout Driver.Sm.handle; return 0
   | ["codec"] => loopStateless stdin stdout Driver.Cd.handle; return 0
   | ["writer"] => loopStateless stdin stdout Driver.Wr.handle; return 0
   | _ => IO.eprintln "usage: driver <suite>"; return 2
